@@ -37,6 +37,8 @@ type Result struct {
 	Labels     []string // classification of the case
 	Known      string   // key of a known finding that explains a failure ("" otherwise)
 	Obs        any      // observations, printed on failure
+	// schedule engines: per scheduling step the index chosen and the number of parked goroutines
+	TraceK, TraceN []int
 }
 
 func (r *Result) failf(format string, a ...any) {
@@ -140,6 +142,10 @@ func bubble(t *testing.T, f func()) {
 }
 
 func evidFor(p string) *evid.Collector { return evid.For(p) }
+
+func evidWriteReplay(prop string, sc any, verdict string) string {
+	return evid.WriteReplay(prop, sc, verdict)
+}
 
 // ---- known findings -------------------------------------------------------------------
 
